@@ -5,8 +5,10 @@
 export GOFLAGS=-mod=mod GOPROXY=off GOSUMDB=off GOTOOLCHAIN=local
 ID=$1; shift; PROPS="$ID $@"
 SRC=/tmp/agent-$ID/SEEDED; DST=/verif/seeded/$ID
-[ -f $SRC/patch.diff ] || { echo "no patch for $ID"; exit 2; }
-mkdir -p $DST; cp $SRC/patch.diff $SRC/demo_test.go $DST/; cp $SRC/README.md $DST/README.md 2>/dev/null
+if [ -f $SRC/patch.diff ]; then
+  mkdir -p $DST; cp $SRC/patch.diff $SRC/demo_test.go $DST/; cp $SRC/README.md $DST/README.md 2>/dev/null
+fi
+[ -f $DST/patch.diff ] || { echo "no patch for $ID"; exit 2; }
 WT=$(mktemp -d /tmp/seedwt-XXXX); rmdir $WT
 git -C /repo worktree add -q $WT HEAD || exit 2
 cd $WT
